@@ -464,4 +464,120 @@ theorem instants_never_collide (h : Hasher) (y m d tod nsec y' m' d' tod' nsec' 
 example : instantNs (9999, 12, 31) 86399 999999999 0 ≤ 254 * 10 ^ 18 ∧ ¬ instantNs (9999, 12, 31) 86399 999999999 0 ≤ 2 * 10 ^ 20 := by
   decide
 
+/-! ### what the parser accepts lies in that window (the date and time-of-day fields; the fraction and the zone of `parseRFC3339`
+are not yet carried through - `instant_in_window` takes their ranges as hypotheses) -/
+
+theorem digitVal_le (c : Char) (h : isDigit c = true) : digitVal c ≤ 9 := by
+  unfold isDigit at h
+  simp only [Bool.and_eq_true, decide_eq_true_eq] at h
+  have h2 : c.toNat ≤ '9'.toNat := h.2
+  unfold digitVal
+  have : '9'.toNat = 57 := by decide
+  have : '0'.toNat = 48 := by decide
+  omega
+
+theorem num2_le (a b : Char) (n : Nat) (h : num2 a b = some n) : n ≤ 99 := by
+  unfold num2 at h
+  split at h
+  · rename_i hd
+    simp only [Bool.and_eq_true] at hd
+    have := digitVal_le a hd.1
+    have := digitVal_le b hd.2
+    simp only [Option.some.injEq] at h
+    omega
+  · simp at h
+
+theorem num4_le (a b c d : Char) (n : Nat) (h : num4 a b c d = some n) : n ≤ 9999 := by
+  unfold num4 at h
+  split at h
+  · rename_i hd
+    simp only [Bool.and_eq_true] at hd
+    have := digitVal_le a hd.1.1.1
+    have := digitVal_le b hd.1.1.2
+    have := digitVal_le c hd.1.2
+    have := digitVal_le d hd.2
+    simp only [Option.some.injEq] at h
+    omega
+  · simp at h
+
+theorem inRange_spec (x lo hi n : Nat) (h : inRange x lo hi = some n) : n = x ∧ lo ≤ n ∧ n ≤ hi := by
+  unfold inRange at h
+  split at h
+  · rename_i hc
+    simp only [Bool.and_eq_true, decide_eq_true_eq] at hc
+    simp only [Option.some.injEq] at h
+    omega
+  · simp at h
+
+theorem daysIn_le (m y : Nat) : daysIn m y ≤ 31 := by
+  unfold daysIn
+  split
+  · split <;> omega
+  · split <;> omega
+
+/-- the date fields the parser accepts: a year of four digits, a month 1..12, a day 1..31 -/
+theorem dateFields_range (y1 y2 y3 y4 mo1 mo2 d1 d2 : Char) (y m d : Nat)
+    (h : dateFields y1 y2 y3 y4 mo1 mo2 d1 d2 = some (y, m, d)) : y ≤ 9999 ∧ 1 ≤ m ∧ m ≤ 12 ∧ 1 ≤ d ∧ d ≤ 31 := by
+  unfold dateFields at h
+  simp only [Option.bind_eq_bind] at h
+  cases hy : num4 y1 y2 y3 y4 with
+  | none => simp [hy] at h
+  | some yy =>
+    cases hm : (num2 mo1 mo2).bind (inRange · 1 12) with
+    | none => simp [hy, hm] at h
+    | some mm =>
+      cases hd : (num2 d1 d2).bind (inRange · 1 (daysIn mm yy)) with
+      | none => simp [hy, hm, hd] at h
+      | some dd =>
+        simp [hy, hm, hd] at h
+        obtain ⟨rfl, rfl, rfl⟩ := h
+        have := num4_le _ _ _ _ _ hy
+        obtain ⟨a, _, ha⟩ := Option.bind_eq_some_iff.mp hm
+        obtain ⟨b, _, hb⟩ := Option.bind_eq_some_iff.mp hd
+        have := inRange_spec _ _ _ _ ha
+        have := inRange_spec _ _ _ _ hb
+        have := daysIn_le mm yy
+        omega
+
+/-- the time of day the parser accepts is below a day -/
+theorem todFields_range (h1 h2 mi1 mi2 s1 s2 : Char) (tod : Nat) (h : todFields h1 h2 mi1 mi2 s1 s2 = some tod) : tod < 86400 := by
+  unfold todFields at h
+  simp only [Option.bind_eq_bind] at h
+  cases hh : (num2 h1 h2).bind (inRange · 0 23) with
+  | none => simp [hh] at h
+  | some a =>
+    cases hm : (num2 mi1 mi2).bind (inRange · 0 59) with
+    | none => simp [hh, hm] at h
+    | some b =>
+      cases hs : (num2 s1 s2).bind (inRange · 0 59) with
+      | none => simp [hh, hm, hs] at h
+      | some c =>
+        simp [hh, hm, hs] at h
+        obtain ⟨_, _, ha⟩ := Option.bind_eq_some_iff.mp hh
+        obtain ⟨_, _, hb⟩ := Option.bind_eq_some_iff.mp hm
+        obtain ⟨_, _, hc⟩ := Option.bind_eq_some_iff.mp hs
+        have := inRange_spec _ _ _ _ ha
+        have := inRange_spec _ _ _ _ hb
+        have := inRange_spec _ _ _ _ hc
+        omega
+
+/-- every bare date the parser accepts denotes an instant inside the window -/
+theorem parseDate_in_window (cs : List Char) (t : Int) (h : parseDate cs = some t) :
+    -(63 * 10 ^ 18 : Int) ≤ t ∧ t ≤ 254 * 10 ^ 18 := by
+  unfold parseDate at h
+  split at h
+  · rename_i y1 y2 y3 y4 mo1 mo2 d1 d2
+    cases hd : dateFields y1 y2 y3 y4 mo1 mo2 d1 d2 with
+    | none => simp [hd] at h
+    | some ymd =>
+      obtain ⟨y, m, d⟩ := ymd
+      simp [hd] at h
+      subst h
+      have r := dateFields_range _ _ _ _ _ _ _ _ y m d hd
+      exact instant_in_window y m d 0 0 0 r.1 ⟨r.2.1, r.2.2.1⟩ ⟨r.2.2.2.1, r.2.2.2.2⟩ (by omega) (by omega) (by omega)
+  · simp at h
+
+/-- not vacuous: a leap day parses -/
+example : (parseDate "2024-02-29".toList).isSome = true := by decide
+
 end Gsp.Props.C04
